@@ -288,12 +288,21 @@ class Model:
                     ann['_yatiml_extra'] = OrderedDict
                 ann['return'] = None
                 cls.__init__.__annotations__ = ann
-                dflts = tuple((_DFLT if p.get('default', _DFLT) is _DFLT else p['default'])
-                              for p in s['params'] if not p['required'])
+                dflts = [(_DFLT if p.get('default', _DFLT) is _DFLT else p['default'])
+                         for p in s['params'] if not p['required']]
                 if s.get('extra'):
-                    dflts = dflts + (None,)
-                cls.__init__.__defaults__ = dflts or None
+                    nreq = len([p for p in s['params'] if p['required']])
+                    at = self._extra_at(s)
+                    dflts.insert(at - nreq, None)
+                cls.__init__.__defaults__ = tuple(dflts) or None
         ns['_verif_types'][:] = [py_type(t, ns) for t in self.rtypes]
+
+    @staticmethod
+    def _extra_at(s):
+        """Number of parameters before `_yatiml_extra` in the signature (default: it is last)."""
+        nreq = len([p for p in s['params'] if p['required']])
+        at = s.get('extra_at')
+        return len(s['params']) if at is None else max(nreq, min(len(s['params']), at))
 
     def _class_source(self, s):
         name = s['name']
@@ -335,7 +344,8 @@ class Model:
             names = [p['name'] for p in s['params']]
             sig = ['self'] + [n if p['required'] else f'{n}=None' for n, p in zip(names, s['params'])]
             if s.get('extra'):
-                sig.append('_yatiml_extra=None')
+                # `_yatiml_extra` may stand anywhere among the optional parameters (1 + index: `self` comes first)
+                sig.insert(1 + self._extra_at(s), '_yatiml_extra=None')
             body.append(f'    def __init__({", ".join(sig)}):')
             kw = ', '.join(f'({n!r}, {n})' for n in names + (['_yatiml_extra'] if s.get('extra') else []))
             body.append(f'        _kw = OrderedDict([(k, v) for k, v in [{kw}] if v is not _DFLT])')
